@@ -1554,6 +1554,25 @@ def _(e, st, raw, n, a, m):
 def _(e, st, raw, n, a, m): return [(T, dec_pred(m.group(1), deref_all(e, st, a[0])))]
 
 
+@summary(r'^rust_decimal::Decimal::mantissa$')
+def _(e, st, raw, n, a, m):
+    v = uf('dec_mantissa', DecSort, z3.IntSort())(deref_all(e, st, a[0])[1])
+    return [(T, lambda s2: (e.assume(z3.And(v > -(1 << 96), v < (1 << 96))), v)[1])]
+
+
+@summary(r'^rust_decimal::Decimal::try_from_i128_with_scale$|^rust_decimal::Decimal::from_i128_with_scale$')
+def _(e, st, raw, n, a, m):
+    num, scale = a[0], a[1]
+    fits = b_and(num > -(1 << 96), num < (1 << 96), scale <= 28) if (is_sym(num) or is_sym(scale)) else (-(1 << 96) < num < (1 << 96) and scale <= 28)
+    val = dec_new(num, scale)
+    if n.endswith('::from_i128_with_scale'):
+        if fits is True: return [(T, val)]
+        return [(b_not(fits), Panic('Decimal::from_i128_with_scale panics (coefficient beyond 96 bits or scale beyond 28)')), (fits, val)]
+    if fits is True: return [(T, ok(val))]
+    if fits is False: return [(T, err(('opaque', 'rust_decimal::Error')))]
+    return [(fits, ok(val)), (b_not(fits), err(('opaque', 'rust_decimal::Error')))]
+
+
 @summary(r'^rust_decimal::Decimal::scale$')
 def _(e, st, raw, n, a, m): return [(T, uf('dec_scale', DecSort, z3.IntSort())(deref_all(e, st, a[0])[1]))]
 
